@@ -318,13 +318,17 @@ func (c *JSONClient) PostAndParseWithRetry(ctx context.Context, path string, req
 				fallthrough
 			case http.StatusTooManyRequests:
 				var backoff *time.Duration
-				// Retry-After may be either a number of seconds as a int or a RFC 1123
-				// date string (RFC 7231 Section 7.1.3)
+				// Retry-After may be either a number of seconds as a int or an HTTP-date
+				// (RFC 7231 Section 7.1.3): an RFC 1123 date string or one of the two
+				// obsolete forms every recipient has to accept (Section 7.1.1.1).
 				if retryAfter := httpRsp.Header.Get("Retry-After"); retryAfter != "" {
 					if seconds, err := strconv.Atoi(retryAfter); err == nil {
 						b := time.Duration(seconds) * time.Second
 						backoff = &b
 					} else if date, err := time.Parse(time.RFC1123, retryAfter); err == nil {
+						b := time.Until(date)
+						backoff = &b
+					} else if date, err := http.ParseTime(retryAfter); err == nil {
 						b := time.Until(date)
 						backoff = &b
 					}
